@@ -88,6 +88,15 @@ class Roles:
             opens = [t for _, _, t in cs if re.search(r"::fs::(OpenOptions::open|File::create|File::create_new|write)$", t.callee.path)]
             bp = [t for _, _, t in cs if prog.callee_fn(t) is not None and prog.callee_fn(t).path in self.bucket_path]
             wr = [t for _, _, t in cs if re.search(r"(Write|AsyncWriteExt|AsyncWrite)::(write_all|write|write_fmt|write_vectored|write_all_vectored|poll_write)$|::fs::write$", t.callee.path)]
+            if not opens and bp and wr:
+                # the open may sit in a private helper that is handed the bucket path
+                for _, _, t in cs:
+                    g = prog.callee_fn(t)
+                    if g is not None and g.path not in self.bucket_path and not g.outer.reachable and any(
+                            re.search(r"::fs::(OpenOptions::open|File::create|File::create_new)$", t2.callee.path)
+                            for _, _, t2 in _calls(prog, g)):
+                        opens = [t]
+                        break
             if opens and bp and wr:
                 self.index_inserts.append(p)
         # content close: persist
